@@ -186,9 +186,9 @@ Proof.
     + apply add_check_fd_inq. exact H.
   - exact H.
   - destruct H as [[q H]|[H|H]]; [|right; left; exact H | right; right; exact H].
-    left. exists q. unfold clear_peer. prj. rewrite wl_get_adel.
+    left. exists q. unfold clear_peer. prj. rewrite wl_get_set.
     destruct (p =? q) eqn:E; [|exact H]. apply Z.eqb_eq in E. subst q.
-    apply (cWP _ _ C) in H. congruence.
+    apply filter_In. split; [exact H|]. apply negb_true_iff. cbn [lop_of lstep] in Hl. exact Hl.
   - destruct (take_job id (dialing s)) as [[j r]|] eqn:E; [|exact H].
     apply finished_inq; auto.
     + eapply take_dialing_prefin; eauto.
